@@ -850,10 +850,138 @@ Theorem add_node_quorums_nonvacuous :
 Proof. exact Raft.MembershipExample.add_node_quorums_nonvacuous. Qed.
 Print Assumptions add_node_quorums_nonvacuous.
 
+(* ---------------------------------------------------------------- round 6: ALL single-server membership changes *)
+From BLB Require Import Raft.NodeKeepV Raft.MemberNode Raft.MemberVotes Raft.MemberConfStep Raft.MemberVotesExample.
+
+(* [PARTIAL] election safety for ALL single-server membership changes, quorum-size changing ones included. Alphabet astep: every event
+   of the core on any node (bootstrap, delivery of any soup message any number of times or never, ticks, proposals, AddNode and
+   RemoveNode exactly as the core accepts or refuses them, SnapshotDone, restarts), with or without a crash after any durable
+   mutation, and NO side condition on the configurations. Ghost EC: for every node that ends a step as a newly elected leader the
+   record (term, id, configuration under which it counted its votes). If any two EC records of one term carry equal or adjacent
+   configurations (adjP: one member list is the other plus exactly one member) then two nodes recorded as leader of the same term
+   are the same node. OPEN: the premise adjP itself, see the NOT YET PROVED block *)
+Theorem election_safety_all_membership_changes_partial :
+  forall (a0 a : asys) (sched : list sys_event),
+    ainit a0 -> run asys sys_event astep a0 sched a -> adjP (snd a) ->
+    forall t x y, In (t, x) (sy_hist (fst a)) -> In (t, y) (sy_hist (fst a)) -> x = y.
+Proof. exact election_safety_given_adjacent_sys. Qed.
+Print Assumptions election_safety_all_membership_changes_partial.
+
+(* [FULL] every counted vote comes from a member of the counting node's configuration, over the alphabet astep with arbitrary
+   membership changes and no premise: every vote a candidate holds was cast for it in its term by a member of the configuration it
+   holds, and every leader ever seen has an EC record (t, c, C) and was elected by a duplicate-free set Q of members of C with at
+   least quorum C elements, all of which cast their term-t vote for c *)
+Theorem counted_votes_come_from_members :
+  forall (a0 a : asys) (sched : list sys_event),
+    ainit a0 -> run asys sys_event astep a0 sched a ->
+    (forall i x, get_node i (sy_nodes (fst a)) = Some x -> n_role x = Candidate ->
+       forall v, In v (c_votes x) -> memb_of x v /\ In (v, p_term (n_p x), n_id x) (sy_cast (fst a))) /\
+    (forall t c, In (t, c) (sy_hist (fst a)) ->
+       exists C Q, In (t, c, C) (snd a) /\ NoDup Q /\ incl Q (mb_members C) /\ quorum C <= N.of_nat (length Q) /\
+                   forall v, In v Q -> In (v, t, c) (sy_cast (fst a))).
+Proof. exact counted_votes_come_from_members_sys. Qed.
+Print Assumptions counted_votes_come_from_members.
+
+(* [FULL] node level, any event, crash variants included: every VoteReq the event emits is addressed to a member of the configuration
+   the node holds (enterCandidate is the only sender); every granted VoteResp it emits answers a delivered VoteReq of the same term
+   from the addressee; a node that ends the event as candidate or as newly elected leader either continues a candidacy of the same
+   term (configuration unchanged, each counted vote was counted before or is the delivered granted VoteResp of this term) or
+   started it in this event (term plus one, configuration unchanged, the only possible vote is its own, counted only if the node is
+   a member of its configuration) *)
+Theorem vote_traffic_respects_configuration :
+  forall s ev k crashed st s',
+    run_event_crash (settle s) ev k = Ret (crashed, st, s') ->
+    vreq_ok s s' /\ resp_src s s' (ev_msg ev) /\ cpart s s' (ev_msg ev).
+Proof. exact step_csum. Qed.
+Print Assumptions vote_traffic_respects_configuration.
+
+(* [FULL] node level: an accepted AddNode (status E_NONE) was issued with the latest configuration committed and the entry at the
+   commit index of the current term (settled), replaces the configuration C by C with the new member appended (the member was not
+   in C), stamped with index last plus one and the current term; a refused AddNode changes nothing *)
+Theorem accepted_add_node_is_settled_and_adds_one_member :
+  forall s member rnd st s',
+    leader_add_node s member rnd = Ret (st, s') ->
+    (st <> E_NONE /\ s' = s) \/
+    (st = E_NONE /\ settled s /\ conf_add (n_conf s) (n_conf s') member /\
+     exists c', n_conf s' = Some c' /\ mb_index c' = last_index (n_p s) + 1 /\ mb_term c' = p_term (n_p s)).
+Proof. exact add_node_conf. Qed.
+Print Assumptions accepted_add_node_is_settled_and_adds_one_member.
+
+(* [FULL] node level: the same for RemoveNode: accepted only when settled, the new configuration is C without the member (which was
+   in C), stamped with index last plus one and the current term; a refused RemoveNode changes nothing *)
+Theorem accepted_remove_node_is_settled_and_removes_one_member :
+  forall s member st s',
+    leader_remove_node s member = Ret (st, s') ->
+    (st <> E_NONE /\ s' = s) \/
+    (st = E_NONE /\ settled s /\ conf_del (n_conf s) (n_conf s') member /\
+     exists c', n_conf s' = Some c' /\ mb_index c' = last_index (n_p s) + 1 /\ mb_term c' = p_term (n_p s)).
+Proof. exact remove_node_conf. Qed.
+Print Assumptions accepted_remove_node_is_settled_and_removes_one_member.
+
+(* [FULL] node level, any event, crash variants included: a node that is leader before and after the event holds the same
+   configuration, or the event was an accepted AddNode or RemoveNode issued when settled and the configuration differs by exactly
+   that member *)
+Theorem leader_configuration_moves_by_one_member :
+  forall s ev k crashed st s',
+    run_event_crash (settle s) ev k = Ret (crashed, st, s') -> n_role s = Leader -> n_role s' = Leader ->
+    n_conf s' = n_conf s \/ conf_moved s ev st s'.
+Proof. exact leader_conf_step. Qed.
+Print Assumptions leader_configuration_moves_by_one_member.
+
+(* [FULL] the configurations before and after an accepted single-server change are adjacent in the sense of
+   adjacent_quorums_intersect: one member list is contained in the other and is exactly one element shorter *)
+Theorem single_server_change_is_adjacent :
+  (forall o o' x, conf_add o o' x ->
+     exists c c', o = Some c /\ o' = Some c' /\ incl (mb_members c) (mb_members c') /\
+                  length (mb_members c') = S (length (mb_members c))) /\
+  (forall o o' x, conf_del o o' x -> forall c, o = Some c -> NoDup (mb_members c) ->
+     exists c', o' = Some c' /\ incl (mb_members c') (mb_members c) /\
+                length (mb_members c) = S (length (mb_members c'))).
+Proof. exact (conj conf_add_adj conf_del_adj). Qed.
+Print Assumptions single_server_change_is_adjacent.
+
+(* [FULL] non-vacuity, run A, add a third node to a two-node group and elect it leader: 21 events over astep; node 1 bootstraps the
+   members 1, 2, wins term 2, commits an entry of its term, accepts AddNode 3, commits the configuration entry, brings node 3 up to
+   date; node 3 times out, campaigns for term 3 under the members 1, 2, 3, node 2 grants, node 3 is leader of term 3; the EC
+   records are as stated, the premise adjP holds, and the conclusion of the partial theorem holds on the run *)
+Theorem add_node_then_elect_it_nonvacuous :
+  ainit A0 /\ run asys sys_event astep A0 schedA A21 /\
+  ec_view (snd A21) = [(2, 1, [1; 2]); (3, 3, [1; 2; 3])] /\ adjP (snd A21) /\
+  In (3, 3) (sy_hist (fst A21)) /\
+  (exists s, get_node 3 (sy_nodes (fst A21)) = Some s /\ n_role s = Leader /\ p_term (n_p s) = 3 /\
+             members_of s = [1; 2; 3] /\ c_votes s = [2; 3]) /\
+  In (2, 3, 3) (sy_cast (fst A21)) /\ In (3, 3, 3) (sy_cast (fst A21)) /\
+  (forall t x y, In (t, x) (sy_hist (fst A21)) -> In (t, y) (sy_hist (fst A21)) -> x = y).
+Proof. exact add_node_then_elect_it. Qed.
+Print Assumptions add_node_then_elect_it_nonvacuous.
+
+(* [FULL] non-vacuity, run B, remove a node and commit with the smaller quorum: the first 10 events of run A, then RemoveNode 2 at the
+   leader: accepted while it holds the members 1, 2 with quorum 2; afterwards it holds the single member 1 with quorum 1 and has
+   committed the configuration entry at index 3 by itself; the two configurations are adjacent; adjP and the conclusion hold *)
+Theorem remove_node_then_commit_with_smaller_quorum_nonvacuous :
+  ainit A0 /\ run asys sys_event astep A0 schedB B11 /\ adjP (snd B11) /\
+  (exists s s', get_node 1 (sy_nodes (fst A10)) = Some s /\ members_of s = [1; 2] /\ n_commit s = 2 /\
+                run_event_crash (settle s) (ERemoveNode 2) 0 = Ret (false, E_NONE, s') /\
+                members_of s' = [1] /\ n_commit s' = 3 /\ length (p_log (n_p s')) = 3%nat /\ n_role s' = Leader) /\
+  (exists c c', quorum c = 2 /\ quorum c' = 1 /\ mb_members c = [1; 2] /\ mb_members c' = [1] /\
+                adj (mb_members c') (mb_members c)) /\
+  (forall t x y, In (t, x) (sy_hist (fst B11)) -> In (t, y) (sy_hist (fst B11)) -> x = y).
+Proof. exact remove_node_then_commit_with_smaller_quorum. Qed.
+Print Assumptions remove_node_then_commit_with_smaller_quorum_nonvacuous.
+
 (* NOT YET PROVED (statements kept visible; listed in props/C02.json not_yet_proved):
-   election_safety_membership_change for the changes between 2k-1 and 2k members (the quorum size changes): needs leader
-   completeness with varying configurations (a candidate holding a stale configuration is stopped only by the up-to-date
-   test) and the invariant that counted votes come from members; hence also the other three clauses across
-   AddNode/RemoveNode (with or without snapshots). Proved so far: adjacent quorums intersect, one change at a time, the
-   quorum-preserving changes.
+   (1) the premise adjP of election_safety_all_membership_changes_partial, i.e. election_safety_membership_change without
+   premise: two nodes that win the same term under configurations C1, C2 hold equal or adjacent configurations. Proved
+   rungs: counted votes come from members; an accepted change is issued only when settled (latest configuration committed,
+   current-term entry committed) and moves the leader's configuration by exactly one member; adjacent quorums intersect.
+   Missing: (a) n_conf of every node = the latest configuration entry of its snapshot+log, and the configuration entries
+   of any log form a chain of single-member steps; (b) at most one uncommitted configuration entry in any log prefix
+   chain; (c) leader completeness for configuration entries under the varying quorums — the mutual induction on the term:
+   a candidate whose configuration is not the committed-or-pending one of the deposed leader lacks a committed entry of
+   that leader's term and is refused by a blocking quorum through the up-to-date test; (d) the acks a leader counts come
+   from members of its configuration (l_peers = members minus self).
+   (2) leader_completeness_membership_change, (3) log_matching_membership_change, (4)
+   state_machine_safety_membership_change over astep (and combined with sstepS): the round 2-5 stack (ginv, ackinv,
+   voteinv, cminv, SI) is built on Election.inv with the fixed quorum of the node set and has to be re-based on EM and
+   per-record quorums.
    On the real code all four clauses are evaluated after every event by the monitors of the Go simulation. *)
